@@ -19,7 +19,7 @@ T = {
             'Well-typed expression trees over linear/nonlinear/functional leaves are evaluated by the library operators and by a small interpreter that applies the documented table literally on arrays; values (out-of-place and in-place), domain, range and is_linear are compared; every ordered pair of combinators at depth 2 is enumerated, deeper trees are seeded. Also: aliased evaluation op(y, out=y) where every leaf is alias-safe, scalar kinds (Python / NumPy, fixed-width, extended), scalar subtraction, compositions across fields and with field-domain operators.',
             'Leaves are trusted only through their own direct evaluation, which the interpreter uses as the primitive.'),
     'C05': ('adjoint identity decided on full real-linear bases through the spaces own inner products (Gram matrices)',
-            'For each linear operator of the registry on small spaces the complete matrices Re<A x_j, y_i> and Re<x_j, A* y_i> are built with the spaces own inner products, which decides the identity for all x, y given linearity (sampled); domain/range of the adjoint and adjoint.adjoint are checked; random expression trees of such operators are included; operators built with explicit second spaces (single-precision twins, weighted product spaces), structured complex matrices, repeated-component projections.',
+            'For each linear operator of the registry on small spaces the complete matrices Re<A x_j, y_i> and Re<x_j, A* y_i> are built with the spaces own inner products, which decides the identity for all x, y given linearity (sampled); domain/range of the adjoint and adjoint.adjoint are checked; random expression trees of such operators are included; operators built with explicit second spaces (single-precision twins, weighted product spaces), structured complex matrices, repeated-component projections. Derivatives op.derivative(x) of the non-linear registry operators that offer an adjoint go through the same contract (real-part comparison between complex and real spaces).',
             'Linearity of A and A* is sampled, not proved; tolerance 1e-10 relative.'),
     'C06': ('central-difference convergence monitor (minimum error and rate) on built-ins and expression programs',
             'derivative(x)(d) is compared with central differences of the operator values at h = 1e-1..1e-6; held iff the minimal relative error is < 1e-6 or decays at second order; linearity, domain and range of the returned operator are checked; chain/product/sum rules are exercised by random expression trees over differentiable leaves. Also: base points scaled by 1e-9 / 1e-17, derivative objects re-used after later calls, the same point object changed in place, numerical derivatives on weighted / multi-axis spaces.',
@@ -28,7 +28,7 @@ T = {
             'For p = prox(x): f(p) finite, (x-p)/sigma satisfies the sub-gradient inequality and p is not beaten in objective value over feasible probes (other prox images, segments, perturbations at scales 1e-1..1e-5), firm non-expansiveness on pairs, indicator idempotence; scipy minimisers from p and x in dimension <= 4. All norms/inner products are the space own. Functional table incl. complex spaces (real-part inner products), composed wrappers, factory table with proximal_composition, three call modes.',
             'Probes sample the space; tolerances 1e-8 relative (double).'),
     'C08': ('Fenchel-Young, biconjugate and Moreau relations through the public API',
-            'f(x)+f*(y) >= <x,y>, equality at y = grad f(x), f** = f on samples, and the Moreau decomposition for sigma in {0.4, 2} on every functional pair whose conjugate can be evaluated and on derived functionals; Fenchel-Young also at extreme magnitudes (floating-point exception flags decide admissibility) and just outside dom f*.',
+            'f(x)+f*(y) >= <x,y>, equality at y = grad f(x), f** = f on samples, and the Moreau decomposition for sigma in {0.4, 2} on every functional pair whose conjugate can be evaluated and on derived functionals; Fenchel-Young also at extreme magnitudes (floating-point exception flags decide admissibility) and just outside dom f*. Functional table incl. f * vector wrappers and Lp norms / balls with exponents 1.5 and 3; branch-reach audit over every convex_conj of the functional library.',
             'Sampled points; tolerance 1e-8 relative.'),
     'C09': ('gradient vs finite differences of values; Lipschitz bound on point pairs; reference interpreter for derived functionals',
             '<grad f(x), d> and derivative(x)(d) are compared with central differences of the values (min-error + rate rule); values of derived functionals are compared with the documented formulas; a finite grad_lipschitz must bound the observed gradient quotients on random pairs at separations 1e-3..3; base points scaled by 1e-9 / 1e-5 / 1e4, NumericalGradient on every weighting kind, parents re-evaluated after building derived functionals.',
@@ -37,7 +37,7 @@ T = {
             'P(y, out=y) is compared with P(x) computed out-of-place from a copy for every proximal factory x options x spaces and every arithmetic wrapper / in-place building block; in addition every aliased Operator call made inside the shipped solvers is shadow-executed and compared at its real call site. Also: 11 arithmetic wrappers (reflection, residual, relaxation, averages, powers) around every proximal, repeated in-place application, proximals applied to their own data element.',
             'Equality up to 1e-12 relative; deterministic operators.'),
     'C11': ('recorded iterate traces: optimised vs reference implementation, split vs unsplit runs, exactly-once callbacks',
-            'Callback-recorded iterates of admm_linearized/adupdates/doubleprox_dc are compared position by position with the *_simple references; runs of n then m iterations are compared with n+m at once for the resumable solvers; callback counts must equal iteration counts. Also: solver options (projection, callback_loop, lam, sensitivities, shared functional objects), caller arguments byte-compared after the call.',
+            'Callback-recorded iterates of admm_linearized/adupdates/doubleprox_dc are compared position by position with the *_simple references; runs of n then m iterations are compared with n+m at once for the resumable solvers; callback counts must equal iteration counts. Also: solver options (projection, callback_loop, lam, sensitivities, shared functional objects), caller arguments byte-compared after the call. Spellings of callback_loop: documented number of observations or a refusal before iterating.',
             'Same arithmetic in different order: tolerance 1e-9 relative; seeded random permutations.'),
     'C12': ('monotonicity checkers over callback traces; bounded progress, KKT inclusion and fixed-point tests on planted problems; step-size helper contracts',
             'Convergence is restated as bounded progress on planted problems with known optimum (kappa <= 5): error after N iterations below 1e-6 x initial; monotone quantities are checked on every iterate; solutions must be fixed points; step-size helpers must return admissible steps for every subset of given parameters; power-method estimate never above the true norm.',
@@ -46,22 +46,22 @@ T = {
             'Each configuration (method x pad mode x pad const x size x axis x dtype x cell side) is decided for all inputs through its full matrix obtained from unit arrays with NaN-prefilled out and compared with S.E built independently; adjoint modes and operator adjoints must be exact transposes; the derivative of the constant-padding variant equals the zero-padding matrix. Sizes 2..8 are enumerated exhaustively.',
             'Semantics pinned by the repository tests (symmetric == edge replicate, order2 one-sided rows) are followed.'),
     'C14': ('structural invariants on every constructed partition; point-location and slicing models',
-            'Boundaries, cell sizes, boundary fractions, index(), slicing/insert/append/squeeze/byaxis and the equivalent uniform_partition parameterisations are checked against a small model on seeded partitions over the full lattice of dimensions, length-1 axes and per-side boundary flags; a post-condition on RectPartition.__init__ checks every partition constructed anywhere in the workload.',
+            'Boundaries, cell sizes, boundary fractions, index(), slicing/insert/append/squeeze/byaxis and the equivalent uniform_partition parameterisations are checked against a small model on seeded partitions over the full lattice of dimensions, length-1 axes and per-side boundary flags; a post-condition on RectPartition.__init__ checks every partition constructed anywhere in the workload. Over-determined construction (all four parameters): consistent quadruples accepted, inconsistent ones refused in every magnitude class.',
             'Sampled limits and points; tolerance 1e-12 relative.'),
     'C15': ('point-wise sampling reference; multilinear interpolation model across calling conventions',
             'space.element(func) is compared with point-by-point evaluation for all callable kinds; nearest/linear/per-axis interpolators are compared with an independent multilinear model at nodes, ties, interior and just-outside points for single points, point arrays and mesh grids, with and without out.',
             'Floating-point ties accept either neighbour; 1e-12 relative.'),
     'C16': ('per-axis resize matrices (+ np.pad second opinion), exact transpose for the adjoint direction, operator-level checks',
-            'resize_array is compared with explicit per-axis matrices for all modes, offsets, directions, dtypes, restricted axes, out=; forward and adjoint directions must be exact transposes on integer-valued data; extend-then-crop is the identity; ResizingOperator range partition, inverse and weighted adjoint identity are checked.',
+            'resize_array is compared with explicit per-axis matrices for all modes, offsets, directions, dtypes, restricted axes, out=; forward and adjoint directions must be exact transposes on integer-valued data; extend-then-crop is the identity; ResizingOperator range partition, inverse and weighted adjoint identity are checked. Padding constants outside the output type are refused exactly when some axis grows.',
             'Admissible paddings only (Appendix B).'),
     'C17': ('differential execution against NumPy on the underlying arrays',
             'The same ufunc call (call/reduce/accumulate/outer/at/reduceat, out kinds, operand kinds, axis/dtype/keepdims) is made on elements and on arrays; raising behaviour, values (bit-equal, NaN-aware), dtype, shape, space kind and out identity must agree; memory sharing and asarray round trip are checked; legacy x.ufuncs interface compared with the same NumPy call; operands in Fortran order / as strided views; thorough tier: every __array_ufunc__ dispatch of the repository suite against NumPy on copies (W-ambient).',
             'gufuncs are excluded; documented non-support counts as agreement.'),
     'C18': ('numpy.fft / cross-back-end / round-trip / refinement monitors with plan-reuse stress; direct-quadrature FT and reciprocal-grid models; pywt baseline',
-            'DFT vs numpy.fft, inverse round trip, numpy vs pyfftw, in-place vs out-of-place, repeated calls with cached plans, input snapshots; FourierTransform vs a direct O(n^2) quadrature on the operator own range grid and an independent reciprocal-grid model, Gaussian refinement; wavelet round trip vs raw pywt and coefficients vs pywt.wavedecn; adjoint identity for orthogonal wavelets with periodization.',
+            'DFT vs numpy.fft, inverse round trip, numpy vs pyfftw, in-place vs out-of-place, repeated calls with cached plans, input snapshots; FourierTransform vs a direct O(n^2) quadrature on the operator own range grid and an independent reciprocal-grid model, Gaussian refinement; wavelet round trip vs raw pywt and coefficients vs pywt.wavedecn; adjoint identity for orthogonal wavelets with periodization. realspace_grid round trip through reciprocal_grid; dft_pre/postprocess_data with every option against their docstring formulas.',
             'numpy.fft and pywt are trusted references.'),
     'C19': ('documented-formula model of every geometry, rigid-motion invariants, vectorised-vs-scalar differential, detector derivatives, slicing and factory coverage',
-            'A NumPy model written from the docstrings gives det_refpoint/src_position/rotation_matrix/det_axes from copies of the constructor arguments; SO(n) membership, position/direction relations, broadcast evaluation vs single evaluation with documented shapes, slicing, frommatrix and factory coverage of the volume are checked over all geometry classes and detector kinds.',
+            'A NumPy model written from the docstrings gives det_refpoint/src_position/rotation_matrix/det_axes from copies of the constructor arguments; SO(n) membership, position/direction relations, broadcast evaluation vs single evaluation with documented shapes, slicing, frommatrix and factory coverage of the volume are checked over all geometry classes and detector kinds. Array-valued surface measures, bulk axis rotations, exactly perpendicular from/to vectors and the option paths of the factory helpers (defaults, short scan, given shapes) are included.',
             'ASTRA conversions cannot run (not installed).'),
     'C20': ('equivalence/hash laws over a constructor-signature-driven twin pool; element-creation and indexing models',
             'Reflexivity, symmetry, transitivity (all triples), hash consistency, != as negation, membership, element(x) is x / value conversion / memory sharing / rejection, astype, real/complex counterparts, byaxis, product-space indexing and element indexing vs NumPy, over a pool containing identical, one-parameter-different and cross-type twins. Thorough tier: symmetry, equal => equal hash and membership <=> own space equals on every comparison the repository suite makes (W-ambient, ~290 000 comparisons).',
